@@ -95,6 +95,15 @@ Lemma decode_integer_facts bs N n k : (1 <=? N) && (N <=? 8) = true ->
   Int.decode_integer bs N = Ok (n, k) -> 1 <= k <= len bs /\ 0 <= n.
 Proof. intros HN. apply Proofs.Int.decode_integer_consumed. lia. Qed.
 
+(** [encode_integer (len x) N] (N a legal prefix width) never raises: a call moved across another
+    computation (a helper that encodes one string completely before the next) is not an observable reordering *)
+Lemma encode_integer_len_ok {A} (x : list A) N : (1 <=? N) && (N <=? 8) = true ->
+  exists b r, Int.encode_integer (len x) N = Ok (b :: r).
+Proof.
+  intros HN. destruct (Proofs.Int.encode_integer_ok (len x) N) as (bs & E & _ & Hne); [unfold len; lia|lia|].
+  destruct bs as [|b r]; [congruence|]. exists b, r. exact E.
+Qed.
+
 Ltac facts :=
   repeat match goal with
   | H : Int.encode_integer _ _ = Ok ?p |- _ =>
@@ -105,6 +114,15 @@ Ltac facts :=
       lazymatch goal with
       | _ : 1 <= k <= len bs /\ 0 <= n |- _ => fail
       | _ => pose proof (decode_integer_facts bs N n k eq_refl H)
+      end
+  end;
+  repeat match goal with
+  | |- context [Int.encode_integer (len ?x) ?N] =>
+      znum N;
+      lazymatch goal with
+      | E : Int.encode_integer (len x) N = _ |- _ => rewrite E
+      | _ => let b := fresh "b" in let r := fresh "r" in let E := fresh "E" in
+             destruct (encode_integer_len_ok x N eq_refl) as (b & r & E); rewrite E
       end
   end;
   repeat match goal with
